@@ -5,7 +5,7 @@
     both as of the current tree (after fix commits a826206, 4412e3a, 4dd7734, d9e7954). *)
 From Coq Require Import List String Ascii ZArith NArith Bool Lia Permutation.
 From PintV Require Import Common.Bytes Gen.Tables Model.GitBranch Proofs.C03_match Proofs.C03_state Proofs.C03_sort Proofs.C03_added Proofs.C03_merge Proofs.C03_final Proofs.C03_skip.
-From PintV Require Model.GitChanges Proofs.C03_changes Proofs.C03_unquote Proofs.C03_faithful Proofs.C03_history.
+From PintV Require Model.GitChanges Proofs.C03_changes Proofs.C03_unquote Proofs.C03_faithful Proofs.C03_history Proofs.C03_tables Gen.C03.
 Import ListNotations.
 Open Scope string_scope.
 Open Scope list_scope.
@@ -14,6 +14,8 @@ Module GC := Model.GitChanges.
 Module PC := Proofs.C03_changes.
 Module PF := Proofs.C03_faithful.
 Module PH := Proofs.C03_history.
+Module PT := Proofs.C03_tables.
+Module GT := PintV.Gen.C03.
 
 (** ** 1. Rename tracking: the fold over the log refines the specification-level lineage.
 
@@ -116,6 +118,28 @@ Theorem C03_changes_have_commits :
     Forall (fun c => GC.ch_commits c <> []) (GC.fold_log type_at allowed is_dir log).
 Proof. intros. apply PC.fold_commits_nonempty. Qed.
 Print Assumptions C03_changes_have_commits.
+
+(** The finite tables of changes.go the model hinges on, regenerated from the Go AST on every run (Gen/C03.v):
+    the FileStatus rune constants and the `switch change.Status` that picks Path.Before.Name for a path without an earlier
+    record -- its "probe" clause lists exactly the statuses A, C and its "src" clause exactly D, R, M, T, which is the case
+    split of the model's [initial_before] ([PT.initial_before_table], for every entry) --, the PathType iota order = the
+    model's constructor order, and the argument vector of the `git log` call (--reverse: oldest commit first, which
+    [log_faithful] relies on; --name-status: the line format [parse_log] reads; --first-parent --no-merges). *)
+Theorem C03_git_tables :
+  (forall type_at e,
+     GC.initial_before type_at e =
+     if PT.has_status (GC.le_status e) PT.probe_statuses then
+       match type_at (GC.parent (GC.le_commit e)) (GC.le_src e) with GC.Missing => "" | _ => GC.le_src e end
+     else if PT.has_status (GC.le_status e) PT.src_statuses then GC.le_src e else "") /\
+  map (fun c => (PT.letters_of GT.file_status_consts (fst c), snd c)) GT.before_switch =
+    [(Some PT.probe_statuses, "probe"); (Some PT.src_statuses, "src")] /\
+  forallb (fun t => match assoc (PT.ptype_name t) GT.path_type_consts with Some v => Z.eqb v (PT.ptype_index t) | None => false end)
+          [GC.Missing; GC.Dir; GC.File; GC.Symlink] = true /\
+  GT.git_log_args = ["log"; "--reverse"; "--no-merges"; "--first-parent"; "--format=%H"; "--name-status"; "<base>..HEAD"].
+Proof.
+  split; [exact PT.initial_before_table|]. vm_compute. repeat split.
+Qed.
+Print Assumptions C03_git_tables.
 
 (** path unquoting (fix 4dd7734) inverts git's C-style quoting, for every path (any bytes) *)
 Theorem C03_unquote_inverts_git_quoting : forall p : string, GC.unquote_path (GC.git_quote p) = p.
